@@ -1,7 +1,7 @@
 (* C02 -- opening, closing, conditional and top-hat operators obey the lattice laws. *)
 Require Import MV.Base.Prelude MV.Base.CInt MV.Base.Index MV.Base.BorderSpec.
 Require Import MV.Gen.Scalar_gen MV.Model.Filter MV.Model.Morph.
-Require Import MV.Proof.ScalarSat MV.Proof.MorphProof MV.Proof.MorphLaws MV.Proof.MorphBounds.
+Require Import MV.Proof.ScalarSat MV.Proof.MorphProof MV.Proof.MorphLaws MV.Proof.MorphBounds MV.Proof.GreyLaws MV.Proof.BinaryDuality.
 
 (* subm (GENERATED from the C++ loop body) is exact subtraction clamped to the dtype range:
    every width, both signednesses, every pair of values *)
@@ -69,3 +69,81 @@ Theorem C02_cerode_bounds : forall d sh bc, wf_dt d -> shape_ok sh ->
   nthZ 0 g i <= nthZ 0 (mh_cerode d {| shape := sh; data := f |} g bc) i
     <= Z.max (nthZ 0 f i) (nthZ 0 g i).
 Proof. exact cerode_bounds. Qed.
+
+(* ---- unsigned grey images, flat element at height c (c = 1 for the masks morph.py builds): any width, dimension, element shape.
+   PG = images of the dtype; PF = images with values <= max - c ("clear of the saturation limit"); every erosion is in PF. ---- *)
+Theorem C02_grey_adjunction : forall t, wf_ity t -> signed t = false -> forall sh bc c, 0 < c <= tmax t -> shape_ok sh ->
+  (forall e, In e (entries false bc) -> length (fst e) = length sh) ->
+  Forall (fun h => h = 0 \/ h = c) (data bc) ->
+  forall f g, PF t sh c f -> PG t sh g ->
+  (le_list (size sh) (gdil t sh bc f) g <-> le_list (size sh) f (gero t sh bc g)).
+Proof. exact grey_adjunction. Qed.
+
+Theorem C02_grey_open_antiextensive : forall t, wf_ity t -> signed t = false -> forall sh bc c, 0 < c <= tmax t -> shape_ok sh ->
+  (forall e, In e (entries false bc) -> length (fst e) = length sh) ->
+  Forall (fun h => h = 0 \/ h = c) (data bc) -> (exists e, In e (entries false bc) /\ snd e = c) ->
+  forall f, PG t sh f -> le_list (size sh) (mh_open (DInt t) (A sh f) bc) f.
+Proof. exact gopen_antiextensive. Qed.
+
+Theorem C02_grey_close_extensive : forall t, wf_ity t -> signed t = false -> forall sh bc c, 0 < c <= tmax t -> shape_ok sh ->
+  (forall e, In e (entries false bc) -> length (fst e) = length sh) ->
+  Forall (fun h => h = 0 \/ h = c) (data bc) -> (exists e, In e (entries false bc) /\ snd e = c) ->
+  forall f, PF t sh c f -> le_list (size sh) f (mh_close (DInt t) (A sh f) bc).
+Proof. exact gclose_extensive. Qed.
+
+Theorem C02_grey_open_idempotent : forall t, wf_ity t -> signed t = false -> forall sh bc c, 0 < c <= tmax t -> shape_ok sh ->
+  (forall e, In e (entries false bc) -> length (fst e) = length sh) ->
+  Forall (fun h => h = 0 \/ h = c) (data bc) -> (exists e, In e (entries false bc) /\ snd e = c) ->
+  forall f, PG t sh f ->
+  mh_open (DInt t) (A sh (mh_open (DInt t) (A sh f) bc)) bc = mh_open (DInt t) (A sh f) bc.
+Proof. exact gopen_idempotent. Qed.
+
+Theorem C02_grey_close_idempotent : forall t, wf_ity t -> signed t = false -> forall sh bc c, 0 < c <= tmax t -> shape_ok sh ->
+  (forall e, In e (entries false bc) -> length (fst e) = length sh) ->
+  Forall (fun h => h = 0 \/ h = c) (data bc) -> (exists e, In e (entries false bc) /\ snd e = c) ->
+  forall f, PF t sh c f ->
+  mh_close (DInt t) (A sh (mh_close (DInt t) (A sh f) bc)) bc = mh_close (DInt t) (A sh f) bc.
+Proof. exact gclose_idempotent. Qed.
+
+Theorem C02_grey_open_increasing : forall t, wf_ity t -> signed t = false -> forall sh bc c, 0 < c <= tmax t -> shape_ok sh ->
+  (forall e, In e (entries false bc) -> length (fst e) = length sh) ->
+  Forall (fun h => h = 0 \/ h = c) (data bc) -> (exists e, In e (entries false bc) /\ snd e = c) ->
+  forall f g, PG t sh f -> PG t sh g -> le_list (size sh) f g ->
+  le_list (size sh) (mh_open (DInt t) (A sh f) bc) (mh_open (DInt t) (A sh g) bc).
+Proof. exact gopen_increasing. Qed.
+
+Theorem C02_grey_close_increasing : forall t, wf_ity t -> signed t = false -> forall sh bc c, 0 < c <= tmax t -> shape_ok sh ->
+  (forall e, In e (entries false bc) -> length (fst e) = length sh) ->
+  Forall (fun h => h = 0 \/ h = c) (data bc) -> (exists e, In e (entries false bc) /\ snd e = c) ->
+  forall f g, PF t sh c f -> PF t sh c g -> le_list (size sh) f g ->
+  le_list (size sh) (mh_close (DInt t) (A sh f) bc) (mh_close (DInt t) (A sh g) bc).
+Proof. exact gclose_increasing. Qed.
+
+(* the top-hats are the exact differences f - open(f) and close(f) - f: subm never clamps there *)
+Theorem C02_grey_tophat_open_exact : forall t, wf_ity t -> signed t = false -> forall sh bc c, 0 < c <= tmax t -> shape_ok sh ->
+  (forall e, In e (entries false bc) -> length (fst e) = length sh) ->
+  Forall (fun h => h = 0 \/ h = c) (data bc) -> (exists e, In e (entries false bc) /\ snd e = c) ->
+  forall f i, PG t sh f -> 0 <= i < size sh ->
+  nthZ 0 (mh_tophat_open (DInt t) (A sh f) bc) i = nthZ 0 f i - nthZ 0 (mh_open (DInt t) (A sh f) bc) i.
+Proof. exact tophat_open_exact. Qed.
+
+Theorem C02_grey_tophat_close_exact : forall t, wf_ity t -> signed t = false -> forall sh bc c, 0 < c <= tmax t -> shape_ok sh ->
+  (forall e, In e (entries false bc) -> length (fst e) = length sh) ->
+  Forall (fun h => h = 0 \/ h = c) (data bc) -> (exists e, In e (entries false bc) /\ snd e = c) ->
+  forall f i, PF t sh c f -> 0 <= i < size sh ->
+  nthZ 0 (mh_tophat_close (DInt t) (A sh f) bc) i = nthZ 0 (mh_close (DInt t) (A sh f) bc) i - nthZ 0 f i.
+Proof. exact tophat_close_exact. Qed.
+
+(* binary dilation is the complement of the erosion of the complement -- any dimension, borders included, for every element
+   whose clamped neighbourhood relation is symmetric (p reaches q iff q reaches p) ... *)
+Theorem C02_binary_duality : forall sh bc, shape_ok sh ->
+  (forall e, In e (entries true bc) -> length (fst e) = length sh) -> nbr_sym sh bc ->
+  forall f, bimg sh f -> bdil sh bc f = bnot (bero sh bc (bnot f)).
+Proof. exact binary_duality. Qed.
+
+(* ... which holds for every element closed under shrinking its offsets coordinate-wise (an executable test that the cross,
+   the boxes and the disks pass: usual_elements_shrink_closed; an asymmetric element fails both: asymmetric_element_fails) *)
+Theorem C02_binary_duality_for_shrink_closed_elements : forall sh bc, shape_ok sh ->
+  (forall e, In e (entries true bc) -> length (fst e) = length sh) -> shrink_closedb bc = true ->
+  forall f, bimg sh f -> bdil sh bc f = bnot (bero sh bc (bnot f)).
+Proof. exact binary_duality_usual. Qed.
